@@ -205,9 +205,9 @@ func genAsmCase(r *core.Rand, cfg core.GenCfg, inject bool) asmCase {
 }
 
 func runC12(c *core.Ctx) error {
-	c.Rule = "histories = a legal call sequence building a generated tree (entry shortcut / key+value / AssignNode of prebuilt nodes / any size hint) with the two pinned rejections injected at random positions (repeated key through AssembleEntry, key AssignString, key AssignNode; kinds the key position or the root prototype cannot hold), over basicnode Any/Map/List/scalar prototypes; non-trivial = at least one injected rejection or >= 6 calls; distinct by history"
-	c.Explanation = "theorems: reject_no_effect, built_nodup, run of the canonical plan, lookup table/map agreement (frame invariant); the assembler state tables are regenerated from map.go/list.go on every run"
-	c.Assumptions = []string{"typed engines (bindnode, generated code) are covered under C09/C13 with their known findings", "misuse orders are outside the quantified space"}
+	c.Rule = "histories = a legal call sequence building a generated tree (entry shortcut / key+value / AssignNode of prebuilt nodes / any size hint) with the two pinned rejections injected at random positions (repeated key through AssembleEntry, key AssignString, key AssignNode; kinds the key position or the root prototype cannot hold), over basicnode Any/Map/List/scalar prototypes; the same over the type-level builders of the reflection binding (inferred and caller-supplied Go types) for plain schemas (typed lists, String-keyed maps, structs, scalars; structs around the 64-field mark), there also with kinds the VALUE position cannot hold, AssignNode of a container refused part of the way through its copy (root and nested positions) and struct keys that are no field - every history continued after each refusal; non-trivial = at least one injected rejection or >= 6 calls; distinct by history"
+	c.Explanation = "theorems: generic builders - reject_no_effect, built_nodup, history_result, run of the canonical plan, lookup table/map agreement (frame invariant), the assembler state tables regenerated from map.go/list.go on every run; schema-bound builders (Props/C12typed.lean over Model/TypedAssembler.lean) - typed_reject_no_effect, typed_repeated_key_rejected_at_call / _by_key_assembler, typed_wrong_kind_rejected, typed_assignNode_iff_conforms, typed_built_conforms (Schema.conforms, no repeated key, canonical), typed_built_is_ideal_build / typed_assignNode_is_ofType (tie to C09's ideal whole-value builder), typed_history_result; correspondence: every generic history on asm.run, every typed history on tasm.run (call-by-call outcomes with error classes, node built)"
+	c.Assumptions = []string{"generated code is driven call by call under C13 (c13Histories: both engines against the same typed-assembler model, its named deviations as engine flags)", "misuse orders are outside the quantified space", "typed-assembler model: any, unions, enums and non-String map keys are outside the modelled fragment (the driver answers `unsupported`)"}
 	n := c.Pick(6000, 400000)
 	cfg := core.DefaultGen
 	cfg.MaxDepth = 5
@@ -227,6 +227,9 @@ func runC12(c *core.Ctx) error {
 
 func replayC12(c *core.Ctx, rp core.Replay) error {
 	f := strings.Fields(rp.Case)
+	if len(f) > 0 && (f[0] == "c12.typed" || f[0] == "tasm.run") {
+		return replayC12Typed(c, rp)
+	}
 	if len(f) < 3 || f[0] != "asm.run" {
 		return fmt.Errorf("bad case")
 	}
@@ -247,13 +250,162 @@ func replayC12(c *core.Ctx, rp core.Replay) error {
 }
 
 // c12Typed: the same call protocol over the typed builders of the reflection binding (type level), for types built from
-// typed maps, lists, structs and scalars: legal histories with the two pinned rejections injected.  The per-call contract
-// and "the result is exactly the accepted entries" are checked against the generator's expectations (the Lean assembler
-// model describes the generic builders; for typed builders the acceptance of values is C09's business).
+// typed maps, lists, structs and scalars: legal histories with refused calls injected and the history CONTINUED after each
+// (a repeated key in the three ways, a kind the key position cannot hold, a kind the VALUE position cannot hold, AssignNode
+// of a container that is refused part of the way through the copy).
+//
+//	(O) the per-call contract and "the result is exactly the accepted entries", against the generator's expectations;
+//	(D) every history is also run on the Lean typed-assembler machine (Model/TypedAssembler.lean, `tasm.run`), whose
+//	    theorems (Props/C12typed.lean) are the C12 statements for schema-bound builders: call-by-call answers and the
+//	    node built must be the model's (`C12/corr-typed-assembler`).
 var c12WideCounter uint64
+
+type c12TypedCase struct {
+	sc    *schemaCase
+	ops   []core.AsmOp
+	want  string // "built …", or "" when the history has no prescribed result (correspondence only)
+	line  string
+	tasm  string
+	impl  string
+	io    []string
+	final string
+}
+
+// unknownFieldTail: the history of a root struct is cut at a point where the struct assembler expects a key, a name that
+// is no field is supplied there and a few value calls follow (what happens is pinned by the model only: the reflection
+// binding accepts the name and then refuses every value for it).
+func unknownFieldTail(ops []core.AsmOp, r *core.Rand) []core.AsmOp {
+	depth := 0
+	var cuts []int
+	for i, op := range ops {
+		if depth == 1 && (op.Kind == "AE" || op.Kind == "AK" || op.Kind == "F") && (i == 0 || ops[i-1].Kind != "AK") {
+			cuts = append(cuts, i)
+		}
+		switch {
+		case (op.Kind == "BM" || op.Kind == "BL") && op.Expect == "ok":
+			depth++
+		case op.Kind == "F" && op.Expect == "ok":
+			depth--
+		case op.Kind == "AN" && op.Expect == "ok" && depth == 0:
+			return nil
+		}
+	}
+	if len(cuts) == 0 {
+		return nil
+	}
+	out := append([]core.AsmOp{}, ops[:cuts[r.Intn(len(cuts))]]...)
+	for i := range out {
+		out[i].Expect = ""
+	}
+	unk := []byte("no\x01field")
+	if r.Bool() {
+		out = append(out, core.AsmOp{Kind: "AE", Key: unk})
+	} else {
+		out = append(out, core.AsmOp{Kind: "AK"}, core.AsmOp{Kind: []string{"A", "AN"}[r.Intn(2)], V: core.Val{K: 's', S: unk}}, core.AsmOp{Kind: "AV"})
+	}
+	tail := []core.AsmOp{{Kind: "A", V: core.Int(1)}, {Kind: "BM"}, {Kind: "BL", Hint: 1}, {Kind: "AN", V: core.Str("x")}, {Kind: "AN", V: core.List(core.Int(1))}, {Kind: "A", V: core.Null()}}
+	for n := 1 + r.Intn(3); n > 0; n-- {
+		out = append(out, tail[r.Intn(len(tail))])
+	}
+	return out
+}
+
+func c12TypedRun(c *core.Ctx, cs *c12TypedCase, r *core.Rand) error {
+	nb, err := cs.sc.Eng.NewTypeBuilder(cs.sc.T.Name)
+	if err != nil {
+		return err
+	}
+	rr := r.Fork()
+	cs.io, cs.final = core.RunOps(nb, cs.ops, func(x core.Val) (datamodel.Node, error) {
+		n, err := core.BuildBasic(x, rr)
+		if err == nil && rr.Chance(1, 3) {
+			n = core.Foreign(n) // the same data as a node of another implementation
+		}
+		return n, err
+	})
+	cs.impl = strings.Join(cs.io, " ") + " | " + cs.final
+	cs.line = "c12.typed " + cs.sc.Eng.Name() + " " + cs.sc.T.Tokens() + " OPS " + core.OpsLine(cs.ops)
+	cs.tasm = core.TasmLine(cs.sc.Eng.ModelName(), cs.sc.T, cs.ops)
+	return nil
+}
+
+// c12TypedJudge: the oracles on one executed history, then the correspondence with the model's answer.
+func c12TypedJudge(c *core.Ctx, cs *c12TypedCase, model string) {
+	line, impl, io, ops := cs.line, cs.impl, cs.io, cs.ops
+	bad := false
+	for j, op := range ops {
+		if j >= len(io) {
+			break
+		}
+		if io[j] == "panic" {
+			c.Fail("C12/panic-on-legal-history", core.Replay{Kind: "oracle", Case: line, Impl: impl, Detail: fmt.Sprintf("call %d (%s) panicked", j, op.Tokens())})
+			bad = true
+			break
+		}
+		okErr := op.Expect != "ok" && op.Expect != "e:repeatedKey" && strings.HasPrefix(io[j], "e:") // any error class reports an unacceptable kind
+		if op.Expect != "" && io[j] != op.Expect && !okErr {
+			sig := "C12/call-outcome"
+			if op.Expect == "e:repeatedKey" {
+				sig = "C12/repeated-key-not-rejected-at-call"
+			} else if op.Expect == "e:refusedNode" {
+				sig = "C12/nonconforming-node-not-refused"
+			} else if op.Expect != "ok" {
+				sig = "C12/unacceptable-kind-not-reported"
+			} else if j > 0 {
+				// a legal call that is not accepted: after a refused AssignNode it is that refusal that had an effect
+				for k := j - 1; k >= 0 && ops[k].Expect != "ok"; k-- {
+					if ops[k].Expect == "e:refusedNode" {
+						sig = "C12/refused-assignnode-had-an-effect"
+					}
+				}
+			}
+			c.Fail(sig, core.Replay{Kind: "oracle", Case: line, Impl: impl, Expected: fmt.Sprintf("call %d (%s) → %s", j, op.Tokens(), op.Expect)})
+			bad = true
+			break
+		}
+	}
+	if cs.want != "" && !bad && cs.final != cs.want {
+		sig := "C12/result-not-accepted-entries"
+		for _, op := range ops {
+			if op.Expect == "e:refusedNode" {
+				sig = "C12/refused-assignnode-had-an-effect"
+			}
+		}
+		c.Fail(sig, core.Replay{Kind: "oracle", Case: line, Impl: impl, Expected: cs.want})
+	}
+	// (D) the typed-assembler machine
+	if model == "unsupported" {
+		c.Dist("typed-model:type-outside-the-fragment")
+		return
+	}
+	if d := core.TasmCompare(impl, model, true); d != "" {
+		c.Fail("C12/corr-typed-assembler", core.Replay{Kind: "correspondence", Case: cs.tasm, Impl: impl, Model: model, Detail: d + "; history " + line})
+	}
+}
+
+func c12TypedBatch(c *core.Ctx, cases []*c12TypedCase) error {
+	lines := make([]string, len(cases))
+	for i, cs := range cases {
+		lines[i] = cs.tasm
+	}
+	outs, err := core.RunDriver(lines)
+	if err != nil {
+		return err
+	}
+	for i, cs := range cases {
+		c12TypedJudge(c, cs, outs[i])
+	}
+	return nil
+}
 
 func c12Typed(c *core.Ctx, r *core.Rand, n int) error {
 	cfg := core.DefaultSchemaCfg
+	var batch []*c12TypedCase
+	flush := func() error {
+		err := c12TypedBatch(c, batch)
+		batch = batch[:0]
+		return err
+	}
 	for i := 0; i < n; i++ {
 		t := core.GenPlainSchema(r, 0)
 		wide := i%16 == 5
@@ -275,7 +427,8 @@ func c12Typed(c *core.Ctx, r *core.Rand, n int) error {
 		v := core.GenInhabitant(t, r, cfg, false)
 		input := core.TypeInput(v)
 		inject := i%4 != 0
-		ops := core.GenHistory(input, r, inject, true)
+		ops := core.GenHistoryOpts(input, r, core.HistoryOpts{Inject: inject, WrongKindValues: inject && !wide, RefusedAssignNode: inject && !wide})
+		want := "built " + v.Term()
 		if wide && len(ops) > 2 && ops[0].Kind == "BM" && ops[len(ops)-1].Kind == "F" {
 			// every field has been supplied: each of the last three once more, in the two ways a key can arrive
 			fin := ops[len(ops)-1]
@@ -291,57 +444,74 @@ func c12Typed(c *core.Ctx, r *core.Rand, n int) error {
 			ops = append(ops, fin)
 			c.Dist("wide-struct-repeated-late-field")
 		}
-		nb, err := sc.Eng.NewTypeBuilder(t.Name)
-		if err != nil {
+		if t.K == "struct" && !wide && i%8 == 3 {
+			if cut := unknownFieldTail(ops, r); cut != nil {
+				ops, want = cut, ""
+				c.Dist("typed-struct-unknown-field-name")
+			}
+		}
+		cs := &c12TypedCase{sc: sc, ops: ops, want: want}
+		if err := c12TypedRun(c, cs, r); err != nil {
 			return err
 		}
-		rr := r.Fork()
-		io, final := core.RunOps(nb, ops, func(x core.Val) (datamodel.Node, error) {
-			n, err := core.BuildBasic(x, rr)
-			if err == nil && rr.Chance(1, 3) {
-				n = core.Foreign(n)
-			}
-			return n, err
-		})
-		impl := strings.Join(io, " ") + " | " + final
-		line := "c12.typed " + sc.Eng.Name() + " " + t.Tokens() + " OPS " + core.OpsLine(ops)
 		injected := 0
 		for _, op := range ops {
 			if op.Expect != "ok" {
 				injected++
 			}
+			if op.Note != "" {
+				c.Dist("typed-injected:" + op.Note)
+			}
 		}
-		c.Count(line, injected > 0 || len(ops) >= 6)
+		c.Count(cs.line, injected > 0 || len(ops) >= 6)
 		c.Dist("proto:typed-" + t.K)
 		if i < 2 {
-			c.Sample(map[string]string{"case": line, "impl": impl})
+			c.Sample(map[string]string{"case": cs.line, "impl": cs.impl})
 		}
-		bad := false
-		for j, op := range ops {
-			if j >= len(io) {
-				break
+		batch = append(batch, cs)
+		if len(batch) >= 4000 {
+			if err := flush(); err != nil {
+				return err
 			}
-			if io[j] == "panic" {
-				c.Fail("C12/panic-on-legal-history", core.Replay{Kind: "oracle", Case: line, Impl: impl, Detail: fmt.Sprintf("call %d (%s) panicked", j, op.Tokens())})
-				bad = true
-				break
-			}
-			okErr := op.Expect != "ok" && op.Expect != "e:repeatedKey" && strings.HasPrefix(io[j], "e:") // any error class reports an unacceptable kind
-			if op.Expect != "" && io[j] != op.Expect && !okErr {
-				sig := "C12/call-outcome"
-				if op.Expect == "e:repeatedKey" {
-					sig = "C12/repeated-key-not-rejected-at-call"
-				} else if op.Expect != "ok" {
-					sig = "C12/unacceptable-kind-not-reported"
-				}
-				c.Fail(sig, core.Replay{Kind: "oracle", Case: line, Impl: impl, Expected: fmt.Sprintf("call %d (%s) → %s", j, op.Tokens(), op.Expect)})
-				bad = true
-				break
-			}
-		}
-		if want := "built " + v.Term(); !bad && final != want {
-			c.Fail("C12/result-not-accepted-entries", core.Replay{Kind: "oracle", Case: line, Impl: impl, Expected: want})
 		}
 	}
-	return nil
+	return flush()
+}
+
+// replayC12Typed re-executes a `c12.typed <engine> <type…> OPS <ops…>` or `tasm.run <engine> <type…> OPS <ops…>` case: the
+// history on the builder the line determines, the per-call answers and the node built against the model's.
+func replayC12Typed(c *core.Ctx, rp core.Replay) error {
+	f := strings.Fields(rp.Case)
+	if len(f) < 4 {
+		return fmt.Errorf("bad case")
+	}
+	t, rest, err := core.ParseSType(f[2:])
+	if err != nil {
+		return err
+	}
+	if len(rest) == 0 || rest[0] != "OPS" {
+		return fmt.Errorf("bad case: no OPS")
+	}
+	ops, err := core.ParseOps(rest[1:])
+	if err != nil {
+		return err
+	}
+	sc, err := newSchemaCase(t)
+	if err != nil {
+		return err
+	}
+	cs := &c12TypedCase{sc: sc, ops: ops}
+	if err := c12TypedRun(c, cs, c.Rand); err != nil {
+		return err
+	}
+	// the intended node is what the contract's machine (no engine deviation) builds from the accepted calls
+	ideal, err := core.RunDriver([]string{core.TasmLine("ideal", t, ops)})
+	if err != nil {
+		return err
+	}
+	if i := strings.Index(ideal[0], "| built "); i >= 0 {
+		cs.want = ideal[0][i+2:]
+	}
+	c.Count(cs.line, true)
+	return c12TypedBatch(c, []*c12TypedCase{cs})
 }
